@@ -6,8 +6,8 @@ from harness import qcow2
 META = dict(
     level="model_checking",
     bounds="cluster_bits 9..21 enumerated (quick: 9, 16, 21); version {2,3}; standard L2 entries; external data "
-           "file {no,yes}; backing {none, file of symbolic length, ALLOW_NO_BACKING_FILE}; request <= N clusters (quick 1, "
-           "thorough 2) from any 512-aligned offset; virtual size, L1 size/offset, every L1/L2/bitmap word, backing length "
+           "file {no,yes}; backing {none, file of symbolic length, ALLOW_NO_BACKING_FILE}; request <= N clusters (1; thorough 2 for "
+           "cluster_bits 9, 12, 16, 21) from any 512-aligned offset; virtual size, L1 size/offset, every L1/L2/bitmap word, backing length "
            "and the request symbolic (64-bit), so every table/cluster placement incl. offsets beyond 4 GiB is covered",
     outside=["extended L2 (sub-cluster) entries in the integrated read path: the reader's per-bit run computation forks "
              "beyond reach (measured: > 40 min on 16 cores for one start sub-cluster); covered by the unit check of the "
@@ -28,7 +28,8 @@ def tasks(tier):
     bits = [9, 16, 21] if tier == "quick" else list(range(9, 22))
     n = 1 if tier == "quick" else 2
     for cb in bits:
-        out.append(("read", dict(cluster_bits=cb, n_clusters=n)))
+        # two-cluster requests for a spread of cluster sizes, one-cluster requests for every size
+        out.append(("read", dict(cluster_bits=cb, n_clusters=n if cb in (9, 12, 16, 21) else 1)))
     out.append(("read", dict(cluster_bits=16, n_clusters=n, backing="file")))
     out.append(("read", dict(cluster_bits=16, n_clusters=n, data_file=True)))
     out.append(("read", dict(cluster_bits=12, n_clusters=n, version=2)))
